@@ -298,8 +298,14 @@ def r5_non_interference(ctx):
     corpus = ctx.corpus
     cls = repo_cls(corpus)
     fn = corpus.func('repository', 'Repository.restore')
-    writers = [corpus.method(cls, '_write_file_part')] + [f for f in fn.nested.values() if any(True for _ in self_calls(f.node, {'_write_file_part'}))]
+    writers = [corpus.method(cls, '_write_file_part')] + [f for f in fn.all_nested() if any(True for _ in self_calls(f.node, {'_write_file_part'}))]
     writers = [w for w in writers if w is not None]
+    # ... or the positioned write itself, wherever it is written out: a nested function that opens a target for update and writes
+    for f in fn.all_nested():
+        opens_rw = any(isinstance(c.func, ast.Attribute) and c.func.attr == 'open' and any(isinstance(a, ast.Constant) and isinstance(a.value, str) and '+' in a.value for a in list(c.args) + [k.value for k in c.keywords]) for c in calls_in(f.node))
+        writes = any(isinstance(c.func, ast.Attribute) and c.func.attr == 'write' for c in calls_in(f.node))
+        if opens_rw and writes and f not in writers:
+            writers.append(f)
     ctx.floor('C01.R5', 'functions writing to restore targets', len(writers))
     for w in writers:
         ctx.analysed(w)
